@@ -572,6 +572,19 @@ func (w *Writer) WriteCompressed(refs []Reference, objects ...Object) error {
 		return err
 	}
 
+	// The reader accepts object streams with at most maxObjStmObjects
+	// members; larger batches are spread over several object streams.
+	if len(objects) > maxObjStmObjects {
+		for start := 0; start < len(objects); start += maxObjStmObjects {
+			end := min(start+maxObjStmObjects, len(objects))
+			err := w.WriteCompressed(refs[start:end], objects[start:end]...)
+			if err != nil {
+				return err
+			}
+		}
+		return nil
+	}
+
 	if !w.outputOptions.HasAny(optObjStm) {
 		// If object streams are disabled, write the objects directly.
 		for i, obj := range objects {
